@@ -1,0 +1,11 @@
+//go:build verif
+
+package version
+
+// Contracts for govc (comment-only; compiled only with -tags verif).
+
+//@ func (Version).HeaderMagicBytes
+//@   props C02 C08
+//@   may_panic
+//@   ensures len(result) == 8 && fresh(result)
+//@   assigns nothing
